@@ -224,3 +224,64 @@ def run(ctx):
 
     # ---- R7.5 "rich enough" clause of the statement: counting bound shared with C02 (R2.2)
     _c02.rank_rules(ctx, lib, gl, only_stiffness=True)
+    weights_enter_rule(ctx)
+
+
+def weights_enter_rule(ctx):
+    """R7.5: the quadrature weights enter every integral: a quantity built from the UNWEIGHTED Jacobian
+    (Get_jacobian_e_pg) is never summed / averaged / integrated over Gauss points unless it has been multiplied by the
+    weights of the same rule (order statistics such as max/min and sign tests are fine)."""
+    import ast
+
+    from ..repo import dotted, norm_text
+
+    repo = ctx.repo
+    r = ctx.rule("R7.5", "every sum over Gauss points carries the weights: values derived from the unweighted Get_jacobian_e_pg reach sum / mean / integrate / einsum only after multiplication by Get_weight_pg / gauss.weights", min_instances=3)
+    REDUCERS = ("sum", "mean", "integrate")
+    for f in repo.all_functions():
+        calls = [n for n in ast.walk(f.node) if isinstance(n, ast.Call) and isinstance(n.func, ast.Attribute) and n.func.attr == "Get_jacobian_e_pg"]
+        if not calls:
+            continue
+        tainted, weights = set(), set()
+        changed = True
+        assigns = [n for n in ast.walk(f.node) if isinstance(n, ast.Assign) and len(n.targets) == 1 and isinstance(n.targets[0], ast.Name)]
+
+        def has(e, names):
+            return any(isinstance(x, ast.Name) and x.id in names for x in ast.walk(e))
+
+        def is_src(e):
+            return any(isinstance(x, ast.Call) and isinstance(x.func, ast.Attribute) and x.func.attr == "Get_jacobian_e_pg" for x in ast.walk(e))
+
+        def is_w(e):
+            return any((isinstance(x, ast.Call) and isinstance(x.func, ast.Attribute) and x.func.attr == "Get_weight_pg") or (isinstance(x, ast.Attribute) and x.attr == "weights") for x in ast.walk(e)) or has(e, weights)
+
+        while changed:
+            changed = False
+            for a in assigns:
+                nm = a.targets[0].id
+                if is_w(a.value) and nm not in weights and not (is_src(a.value) or has(a.value, tainted)):
+                    weights.add(nm)
+                    changed = True
+                if (is_src(a.value) or has(a.value, tainted)) and not is_w(a.value) and nm not in tainted:
+                    tainted.add(nm)
+                    changed = True
+        for c in calls:
+            r.instance(fn=f.qualname)
+        bad = None
+        for n in ast.walk(f.node):
+            if not isinstance(n, ast.Call):
+                continue
+            d = dotted(n.func) or ""
+            operand = None
+            if isinstance(n.func, ast.Attribute) and n.func.attr in REDUCERS and not d.startswith("np."):
+                operand = n.func.value
+            elif d in ("np.sum", "np.mean", "np.einsum", "einsum", "np.average", "np.trapz") and n.args:
+                operand = ast.Tuple(elts=list(n.args), ctx=ast.Load())
+            if operand is not None and (has(operand, tainted) or is_src(operand)) and not is_w(operand):
+                bad = n
+                break
+        if bad is not None:
+            r.fail(f.qualname, "unweighted-sum", f.file, bad.lineno, f.name, f"`{norm_text(bad)[:90]}` sums over Gauss points a quantity built from the unweighted Jacobian: the quadrature weights are missing from the integral (exact only for rules with equal weights and constant Jacobian)")
+        else:
+            for c in calls:
+                r.ok(f"{f.qualname}: unweighted Jacobian used without a Gauss-point sum")
